@@ -185,6 +185,7 @@ harnesses! {
     e2n_c07_min_ada [native 0] => e2n::c07_min_ada;
     e2n_c19_collateral [native 0] => e2n::c19_collateral;
     e2n_bigint_narrowing [native 0] => e2n::bigint_narrowing;
+    e2n_bigint_form [native 0] => e2n::bigint_form;
     e2n_c18_cert_signers [native 0] => e2n::c18_cert_signers;
     e2n_builder_battery [native 0] => battery::builder_battery;
     e2n_c09_battery [native 0] => battery::c09_battery;
@@ -193,9 +194,11 @@ harnesses! {
     e2n_c04_fixed_tx [native 0] => battery::c04_fixed_tx;
     e2n_c13_send_all [native 0] => battery::c13_send_all;
     e2n_c16_sets [native 0] => battery::c16_sets;
+    e2n_c19_helper_failed [native 0] => battery::c19_helper_failed;
     e2n_c02_decode [native 0] => c02::c02_decode;
     e2n_c02_battery [native 0] => c02::c02_battery;
     e2n_c02_wrappers [native 0] => c02::c02_wrappers;
+    e2n_c02_text_battery [native 0] => c02::c02_text_battery;
     c02_hash_from_bytes [stub 36] => c02k::hash_from_bytes;
     c11_enc_base [stub 4] => c11::enc_base;
     c11_enc_enterprise [stub 4] => c11::enc_enterprise;
